@@ -257,5 +257,9 @@ def check(eng, res):
     roles = [r for r in c15.ROLES if r[0].startswith(("mix-", "sys-remainder", "sys-sum", "sys-inconsistent"))]
     k = c15.check_roles(eng, res, roles)
     res.floor("R-GUARD-INVENTORY", k, 8)
+    from . import c01 as _c01
+
+    res.doc("R-PRINT-EXACT", "mixture numbers are written into notation text with full precision (shared with C01)")
+    _c01.print_exact(eng, res)
     res.assumptions += ["float arithmetic is treated as exact field arithmetic in the algebraic normal form"]
     res.not_decided += ["the values for all assignments of {absolute, percent, unspecified}", "preservation of the user's numbers on every path", "re-parse of printed masses (C01)"]
